@@ -153,6 +153,15 @@ func OracleC03() *Oracle {
 func OracleC14() *Oracle {
 	var out []byte
 	return &Oracle{
+		Panic: func(h *Hist, r any) {
+			// a Parse(nil) that panics did not consume its block; panics of other calls are C16's business
+			if h.InNilParse {
+				h.InNilParse = false
+				h.Fail("nil-panic", "Parse(nil) panicked instead of consuming the next block: %v (ops %s)", r, h.OpsString())
+				return
+			}
+			h.St.Add("panics_recovered_and_left_to_C16", 1)
+		},
 		Parse: func(h *Hist, ev *ParseEv) {
 			if ev.Nil {
 				want := min(h.BC.BlockSize, ev.Unparsed)
